@@ -68,6 +68,38 @@ def _collect(rep, results, key):
     return out
 
 
+def _required_class(t, detail):
+    """Why was a vertex that finished before an in-horizon supervisor step not executed (prune=False)?  From the raw graph of the trace:
+    'needed_only_beyond_horizon' - it is an ancestor of supervisor steps, but only of ones beyond the compiled horizon (rex keeps such a vertex in the
+    partition of the first supervisor step that depends on it, and the horizon - the shortest episode - cuts that partition off);
+    'non_ancestor_not_attached' - it is no ancestor of any supervisor step (to_connected_graph should have attached it); 'other'."""
+    m = re.search(r'got \|-> <<"(\w+)", (\d+)>>', detail)
+    if not m:
+        return "other"
+    kind0, seq0 = m.group(1), int(m.group(2)) - 1
+    succ = {}
+    for k, rows in t["verts"].items():
+        seqs = sorted(r["seq"] for r in rows)
+        for a, b in zip(seqs, seqs[1:]):
+            succ.setdefault((k, a), set()).add((k, b))
+    for key, es in t["edges"].items():
+        a, b = key.split(">")
+        for e in es:
+            if e["in"] >= 0:
+                succ.setdefault((a, e["out"]), set()).add((b, e["in"]))
+    seen, todo = {(kind0, seq0)}, [(kind0, seq0)]
+    while todo:
+        x = todo.pop()
+        for y in succ.get(x, ()):
+            if y not in seen:
+                seen.add(y)
+                todo.append(y)
+    sups = sorted(q for (k, q) in seen if k == t["sup"] and (k, q) != (kind0, seq0))
+    if not sups:
+        return "non_ancestor_not_attached"
+    return "other" if sups[0] < t["H"] else "needed_only_beyond_horizon"
+
+
 def _judge(rep, items, module, table, mine, kind):
     traces = [t for _, _, t in items]
     vs, st = engine.validate_parallel(traces, module=module)
@@ -87,9 +119,12 @@ def _judge(rep, items, module, table, mine, kind):
                           text=f"{kind} trace {t['id']} rejected by {module} clause {v['clause']} and, independently, by {also}: {v['detail'].split(' ALSO ', 1)[1][:600]}")
             continue
         if props & mine:
-            rep.violation(dict(clause=v["clause"], kind=kind),
+            sig = dict(clause=v["clause"], kind=kind)
+            if v["clause"] == "RequiredExecuted" and "prune=False" in v["detail"]:
+                sig["cls"] = _required_class(t, v["detail"])
+            rep.violation(sig,
                           dict(kind=kind, job={k: job[k] for k in job if k not in ("runs", "histories")}, trace_id=t["id"], verdict=v),
-                          text=f"{kind} trace {t['id']} rejected by {module} clause {v['clause']}: {v['detail'][:700]}")
+                          text=f"{kind} trace {t['id']} rejected by {module} clause {v['clause']}" + (f" (class {sig['cls']})" if "cls" in sig else "") + f": {v['detail'][:700]}")
         else:
             rep.note(f"{kind} trace {t['id']} rejected by clause {v['clause']} which belongs to {sorted(props)}; not examined further here")
     return vs
